@@ -89,9 +89,10 @@ Proof.
   unfold set_listen.
   mstep side. mstep side. mstep side.
   erewrite bind_ok; [|apply reg_write_c; [lia|apply byte_lor_land_252; exact D1]]. cbv beta.
-  cbv iota.
+  mstep side. cbv iota.
+  rewrite !bind_assoc.
   mstep side. mstep side.
-  cbn [d_pipe0_read_addr upd_config upd_in0 d_pipe0 d_open_pipes b_ce CB].
+  cbn [d_pipe0_read_addr upd_config upd_in0 d_pipe0 d_open_pipes b_ce b_now CB fst snd].
   set (c1 := cset_ce (cwrite (cset_ce c false) (Z.to_N 0) [Z.to_N (Z.lor (Z.land (d_config d) 252) (2 + zb true))]) true).
   assert (Hc1_0 : N.land (creg c1 0) 3 = 3%N).
   { unfold c1. unfold cwrite. cbn [Z.to_N].
@@ -125,15 +126,17 @@ Proof.
   - destruct (Hrd img eq_refl) as [Hl Hbit].
     unfold bytes_eqb. destruct (list_eqb img (d_pipe0 d)) eqn:Eq; cbn [negb].
     + (* already on the user's address *)
+      mstep side. rewrite listen_delay_c.
       eexists _, _. split; [reflexivity|].
       assert (img = d_pipe0 d).
       { clear -Eq. revert Eq. generalize (d_pipe0 d). induction img as [|x t IH]; intros [|y s] H; try discriminate; [reflexivity|].
         cbn in H. apply andb_true_iff in H. destruct H as [H1 H2]. apply N.eqb_eq in H1. subst. f_equal. apply IH. exact H2. }
       split; [exact A3|]. split; [exact Hc1_0|]. split; [split; [congruence|rewrite Hc1_2; exact Hbit]|].
       split; [exact A2|exact A1].
-    + erewrite bind_ok; [|apply overlay_into_full; rewrite Hl, D11; reflexivity]. cbv beta.
-      mstep side.
-      rewrite reg_write_bytes_c by lia.
+    + rewrite !bind_assoc.
+      erewrite bind_ok; [|apply overlay_into_full; rewrite Hl, D11; reflexivity]. cbv beta.
+      rewrite ?bind_assoc. mstep side. rewrite ?bind_assoc.
+      erewrite bind_ok; [|apply reg_write_bytes_c; lia]. cbv beta. rewrite listen_delay_c.
       eexists _, _. split; [reflexivity|].
       unfold cwrite. destruct img as [|i0 it]; [discriminate|].
       change (Z.to_N 10 =? R_RX_ADDR_P0)%N with true. cbv iota.
@@ -141,8 +144,8 @@ Proof.
       rewrite overlay_full by (rewrite A0, W2; exact Hl).
       repeat split; try assumption; try congruence.
   - destruct (truthy (Z.land (d_open_pipes d) 1)) eqn:Eo.
-    + mstep side.
-      rewrite reg_write_c by (try lia; apply land62_byte; exact D3).
+    + rewrite !bind_assoc. mstep side. rewrite ?bind_assoc.
+      erewrite bind_ok; [|apply reg_write_c; [lia|apply land62_byte; exact D3]]. cbv beta. rewrite listen_delay_c.
       eexists _, _. split; [reflexivity|].
       unfold cwrite. cbn [Z.to_N].
       change (2 =? R_RX_ADDR_P0)%N with false. change (2 =? R_RX_ADDR_P1)%N with false.
@@ -153,7 +156,8 @@ Proof.
       repeat split; try assumption.
       * rewrite creg_cset_other by discriminate. exact Hc1_0.
       * rewrite creg_cset_same by (rewrite A4; cbn; lia). apply land62_bit0. exact D3.
-    + eexists _, _. split; [reflexivity|].
+    + mstep side. rewrite listen_delay_c.
+      eexists _, _. split; [reflexivity|].
       repeat split; try assumption.
       rewrite Hc1_2. rewrite <- bit0_of_truthy by apply Hb. rewrite Hop. exact Eo.
 Qed.
